@@ -118,6 +118,17 @@ def attrToks (a b : Nat) : List Tok :=
   onTok off attrItalic 23 ++ onTok off attrBlink 25 ++ onTok off attrReverse 27 ++
   onTok off attrInvisible 28 ++ onTok off attrStrikethrough 29
 
+/-- `linkPs[:strings.IndexByte(linkPs, ';')]` on the hex form of the string (two characters per
+    byte, lower case — `hx.Hex` / `hexOfBytes`): the bytes before the first `;` (0x3b).  A tail of
+    odd length cannot occur for a hex string; it is kept as it is. -/
+def lpFieldL : List Char → List Char
+  | a :: b :: r => if a = '3' ∧ b = 'b' then [] else a :: b :: lpFieldL r
+  | r => r
+
+/-- The parameter field `render` writes into OSC 8 (F112b repair): `HyperlinkParams` up to the
+    first `;` — the field ends there on every terminal, the rest would be read as part of the URL. -/
+def lpField (s : String) : String := String.ofList (lpFieldL s.toList)
+
 /-- Everything `render` writes between the CUP and the grapheme of one changed cell. -/
 def penDelta (caps : Caps) (pen next : Style) : List Tok :=
   (if pen.fg ≠ next.fg then colorToks caps 30 next.fg else []) ++
@@ -129,7 +140,7 @@ def penDelta (caps : Caps) (pen next : Style) : List Tok :=
       else if next.ulStyle = 0 then [Tok.sgr [[24]]] else [Tok.sgr [[4]]])
    else []) ++
   (if pen.link ≠ next.link ∨ (next.link ≠ "" ∧ pen.linkParams ≠ next.linkParams) then
-     [Tok.osc8 (if next.link = "" then "" else next.linkParams) next.link]
+     [Tok.osc8 (lpField (if next.link = "" then "" else next.linkParams)) next.link]
    else [])
 
 /-- The width `render` and `advance` use for a cell: the explicit one, or `characterWidth`. -/
